@@ -3586,6 +3586,36 @@ pub fn s_gc_reuse(cx: &mut Ctx) {
             }
             cx.op("digest".into());
         }
+        // the other way round: the RESULT survives the collection, an OPERAND does not; a different
+        // one-node function takes the operand's cell; the same connective with the same co-operand again
+        // (a memo entry kept because its result is alive would now answer for the wrong operand)
+        for round in 0..4 {
+            hs.retain(|&i| cx.ex.live[i]);
+            let i = 1 + cx.rng.below(n as u64 - 1);
+            let j = i + 1 + cx.rng.below((n as u64 - i).max(1)).min(n as u64 - i - 1);
+            let k = 1 + (j % n as u64);
+            let ops = ["and", "or", "xor", "eq", "imply"];
+            let mk1 = ops[(ci + round) % 2];
+            let mk2 = ops[(ci + round + 1) % 2];
+            let a = cx_op!(cx, format!("{} {} {}", mk1, i + 1, j + 1));          // handles of the variables are 2..=n+1
+            let b = *cx.rng.pick(&hs);
+            let op = ops[(ci + round) % 5];
+            let r = cx_op!(cx, format!("{} {} {}", op, a, b));
+            let r_ite = cx_op!(cx, format!("ite {} {} {}", a, b, *cx.rng.pick(&hs)));
+            let mut roots: Vec<String> = hs.iter().map(|r| r.to_string()).collect();
+            roots.push(r.to_string());
+            roots.push(r_ite.to_string());
+            cx_op!(cx, format!("gc {}", roots.join(" ")));
+            let a2 = cx_op!(cx, format!("{} {} {}", mk2, i + 1, k + 1));
+            cx_op!(cx, format!("{} {} {}", op, a2, b));
+            cx_op!(cx, format!("{} {} {}", op, b, a2));
+            let c = *cx.rng.pick(&hs);
+            cx_op!(cx, format!("ite {} {} {}", a2, b, c));
+            if cx.ex.live[r] {
+                hs.push(r);
+            }
+            cx.op("digest".into());
+        }
         cx.end();
     }
 }
